@@ -1,0 +1,56 @@
+//! Verification hooks (cargo feature `verif_hooks`, off by default).
+//!
+//! A thread-local step counter that the evaluators bump at every loop
+//! iteration and recursive call. A harness arms it with a budget before a
+//! call and reads the number of steps afterwards; running past the budget
+//! unwinds with a `StepBudgetExceeded` payload so that a runaway loop is cut
+//! short instead of hanging the caller. Nothing here is compiled unless the
+//! feature is enabled.
+use std::cell::Cell;
+
+/// Panic payload raised by `tick` when the armed budget is exceeded.
+#[derive(Debug, Clone, Copy)]
+pub struct StepBudgetExceeded {
+    pub steps: u64,
+}
+
+thread_local! {
+    static STEPS: Cell<u64> = Cell::new(0);
+    static BUDGET: Cell<u64> = Cell::new(u64::MAX);
+    static YIELD_EVERY: Cell<u64> = Cell::new(0);
+}
+
+/// Reset the counter of the current thread and set its budget.
+/// `yield_every > 0` makes every n-th tick call `thread::yield_now()`.
+pub fn arm(budget: u64, yield_every: u64) {
+    STEPS.with(|s| s.set(0));
+    BUDGET.with(|b| b.set(budget));
+    YIELD_EVERY.with(|y| y.set(yield_every));
+}
+
+/// Remove the budget and return the number of steps counted since `arm`.
+pub fn disarm() -> u64 {
+    BUDGET.with(|b| b.set(u64::MAX));
+    YIELD_EVERY.with(|y| y.set(0));
+    STEPS.with(|s| s.get())
+}
+
+/// Count one step on the current thread.
+#[inline]
+pub fn tick() {
+    let steps = STEPS.with(|s| {
+        let n = s.get() + 1;
+        s.set(n);
+        n
+    });
+    let every = YIELD_EVERY.with(|y| y.get());
+    if every != 0 && steps % every == 0 {
+        std::thread::yield_now();
+    }
+    if steps > BUDGET.with(|b| b.get()) {
+        // Disarm first so that unwinding code which ticks again cannot
+        // panic a second time.
+        BUDGET.with(|b| b.set(u64::MAX));
+        std::panic::panic_any(StepBudgetExceeded { steps });
+    }
+}
